@@ -130,6 +130,8 @@ impl<S: RSSupport> RSQVector<S> {
 
         for j in 0..if S::BLOCK_SIZE == 256 { 1 } else { 2 } {
             // May need two iterations for blocks of size 512
+            #[cfg(qwt_verif)]
+            crate::verif::idx("rsq.intra", line_id + j, self.qv.data.len());
             let (word_0, word_1) =
                 unsafe { self.qv.data.get_unchecked(line_id + j).normalize(symbol) };
 
